@@ -9,7 +9,7 @@ for patch in "$@"; do
   cd /verif
   ./check C01 --tier quick > $out/$tag.C01.log 2>&1   # warms the fact cache once
   echo $props | tr ' ' '\n' | grep -v C01 | xargs -P 9 -I{} sh -c "VERIF_BUDGET_S=400 ./check {} --tier quick > $out/$tag.{}.log 2>&1"
-  git -C /repo checkout -- .
+  git -C /repo checkout -- . && git -C /repo clean -fdq -- src
   hits=$(grep -l "^VIOLATION" $out/$tag.*.log | sed -e "s/.*\.\(C[0-9]*\)\.log/\1/" | tr '\n' ' ')
   echo "$tag ALARMS: $hits"
 done
